@@ -185,6 +185,10 @@ type TProgram struct {
 	MainToks []Tok
 	SubToks  []Tok
 	Stmts    []StmtRange // statements of the driven subroutine (token ranges in SubToks)
+	// PreTok[k] is the index in SubToks of the first token of the k-th statement of Init+Body in
+	// PRE-ORDER (a compound statement before the statements nested in it); the last entry is the
+	// closing `log "__end"` when the body does not end with a return.
+	PreTok []int
 	Features map[string]int
 }
 
@@ -202,6 +206,14 @@ type Env struct {
 	Trace      []TraceStep
 	Subs       map[string]*TSub
 	depth      int
+	nullText   bool
+	hdrCtx     bool
+	// Pre, when TracePre is set, is the state BEFORE each executed statement of the driven
+	// subroutine's own frame, identified by its pre-order index (see TProgram.PreTok).
+	TracePre bool
+	Pre      []PreStep
+	// ZeroLenMatch counts successful regex matches of zero length evaluated so far
+	ZeroLenMatch int
 	// Returned is set by a return statement until the frame it belongs to is left; State is the
 	// action returned by the driven subroutine ("" = fell off the end).
 	Returned bool
@@ -212,6 +224,53 @@ type Env struct {
 type TraceStep struct {
 	Kind string
 	Vars map[string]string
+}
+
+// PreStep is the reference state before one executed statement.
+type PreStep struct {
+	Idx  int
+	Stmt TStmt
+	// ZeroLen is Env.ZeroLenMatch when the statement starts
+	ZeroLen int
+	Vals map[string]TVal // locals, "req.http.<lower-case name>" (absent = not set), "re.group.N"
+}
+
+// Count is the number of statements (nested ones included) in pre-order.
+func Count(stmts []TStmt) int {
+	n := 0
+	for _, s := range stmts {
+		n++
+		switch t := s.(type) {
+		case TIf:
+			n += Count(t.Then)
+			for _, ei := range t.ElseIfs {
+				n += Count(ei.Body)
+			}
+			n += Count(t.Else)
+		case TSwitch:
+			for _, c := range t.Cases {
+				n += Count(c.Body)
+			}
+		}
+	}
+	return n
+}
+
+func (e *Env) pre(idx int, s TStmt) {
+	if !e.TracePre || e.depth > 0 {
+		return
+	}
+	m := make(map[string]TVal, len(e.Vars)+len(e.Hdrs)+len(e.Group))
+	for k, v := range e.Vars {
+		m[k] = v
+	}
+	for k, v := range e.Hdrs {
+		m["req.http."+k] = v
+	}
+	for k, v := range e.Group {
+		m[fmt.Sprintf("re.group.%d", k)] = v
+	}
+	e.Pre = append(e.Pre, PreStep{Idx: idx, Stmt: s, Vals: m, ZeroLen: e.ZeroLenMatch})
 }
 
 func NewEnv() *Env {
@@ -229,7 +288,7 @@ func truthy(v TVal) bool {
 	case TB:
 		return v.B
 	case TS:
-		return !v.NotSet && v.S != "" // a not-set (or empty) string is falsy
+		return !v.NotSet // a not-set string is falsy; an empty one is set
 	case TI:
 		return v.I != 0
 	}
@@ -269,7 +328,18 @@ func (e *Env) Eval(x TExpr) TVal {
 	case TConcat:
 		var sb strings.Builder
 		for _, p := range t.Parts {
-			sb.WriteString(strOf(e.Eval(p)))
+			v := e.Eval(p)
+			if e.nullText && v.T == TS && v.NotSet {
+				if e.hdrCtx {
+					// what a header gets from a concatenation with a not-set operand is not documented
+					// (falco: "(null)" next to text, not set when nothing else is there): not generated
+					e.oor("not-set operand in a concatenation assigned to a header")
+				}
+				// in a log statement a not-set operand renders "(null)"
+				sb.WriteString("(null)")
+				continue
+			}
+			sb.WriteString(strOf(v))
 		}
 		return TVal{T: TS, S: sb.String()}
 	case TNot:
@@ -294,6 +364,9 @@ func (e *Env) Eval(x TExpr) TVal {
 			return TVal{T: TB}
 		}
 		m := re.FindStringSubmatch(strOf(l))
+		if m != nil && m[0] == "" {
+			e.ZeroLenMatch++
+		}
 		if m != nil {
 			// a successful match (re)sets the capture groups of the frame
 			e.Group = map[int]TVal{}
@@ -498,7 +571,11 @@ func (e *Env) snapshot(kind string) {
 }
 
 // Exec runs statements; it returns false when execution must stop (out of range).
-func (e *Env) Exec(stmts []TStmt) bool {
+func (e *Env) Exec(stmts []TStmt) bool { return e.ExecAt(stmts, 0) }
+
+// ExecAt is Exec for statements whose first one has pre-order index base.
+func (e *Env) ExecAt(stmts []TStmt, base int) bool {
+	idx := base
 	for _, s := range stmts {
 		if e.OutOfRange {
 			return false
@@ -506,6 +583,9 @@ func (e *Env) Exec(stmts []TStmt) bool {
 		if e.Returned {
 			return true
 		}
+		cur := idx
+		idx += Count([]TStmt{s})
+		e.pre(cur, s)
 		switch t := s.(type) {
 		case TReturn:
 			e.Returned = true
@@ -514,7 +594,9 @@ func (e *Env) Exec(stmts []TStmt) bool {
 			}
 			e.snapshot("return")
 		case TSet:
+			e.nullText, e.hdrCtx = t.Header, t.Header
 			val := e.Eval(t.Val)
+			e.nullText, e.hdrCtx = false, false
 			if t.Header {
 				k := strings.ToLower(strings.TrimPrefix(t.Target, "req.http."))
 				cur, ok := e.Hdrs[k]
@@ -540,42 +622,74 @@ func (e *Env) Exec(stmts []TStmt) bool {
 		case TLog:
 			line := t.Marker
 			if t.Val != nil {
-				line += strOf(e.Eval(t.Val))
+				e.nullText = true
+				v := e.Eval(t.Val)
+				e.nullText = false
+				if v.T == TS && v.NotSet {
+					line += "(null)"
+				} else {
+					line += strOf(v)
+				}
 			}
 			e.Logs = append(e.Logs, line)
 			e.snapshot("log")
 		case TIf:
 			taken := false
+			at := cur + 1
 			if truthy(e.Eval(t.Cond)) {
 				taken = true
-				if !e.Exec(t.Then) {
+				if !e.ExecAt(t.Then, at) {
 					return false
 				}
 			} else {
+				at += Count(t.Then)
 				for _, ei := range t.ElseIfs {
 					if truthy(e.Eval(ei.Cond)) {
 						taken = true
-						if !e.Exec(ei.Body) {
+						if !e.ExecAt(ei.Body, at) {
 							return false
 						}
 						break
 					}
+					at += Count(ei.Body)
 				}
 			}
 			if !taken && t.HasElse {
-				if !e.Exec(t.Else) {
+				at = cur + 1 + Count(t.Then)
+				for _, ei := range t.ElseIfs {
+					at += Count(ei.Body)
+				}
+				if !e.ExecAt(t.Else, at) {
 					return false
 				}
 			}
 		case TSwitch:
-			ctl := strOf(e.Eval(t.Ctl))
+			cv := e.Eval(t.Ctl)
+			if cv.T == TS && cv.NotSet {
+				// what a not-set control matches is not documented (falco renders it "(null)"): not generated
+				e.oor("switch on a not-set control")
+				return false
+			}
+			ctl := strOf(cv)
 			start := -1
 			for i, c := range t.Cases {
 				if c.Default {
 					continue
 				}
 				if c.Regex {
-					if re, err := regexp.Compile(c.Val); err == nil && re.MatchString(ctl) {
+					re, err := regexp.Compile(c.Val)
+					if err != nil {
+						continue
+					}
+					if loc := re.FindStringIndex(ctl); loc != nil && loc[0] == loc[1] {
+						e.ZeroLenMatch++
+					}
+					if m := re.FindStringSubmatch(ctl); m != nil {
+						// a matching regex case sets the capture groups like the match operator
+						e.Group = map[int]TVal{}
+						for gi, gs := range m {
+							e.Group[gi] = TVal{T: TS, S: gs}
+						}
 						start = i
 						break
 					}
@@ -592,7 +706,11 @@ func (e *Env) Exec(stmts []TStmt) bool {
 				}
 			}
 			for i := start; i >= 0 && i < len(t.Cases); i++ {
-				if !e.Exec(t.Cases[i].Body) {
+				at := cur + 1
+				for _, c := range t.Cases[:i] {
+					at += Count(c.Body)
+				}
+				if !e.ExecAt(t.Cases[i].Body, at) {
 					return false
 				}
 				if !t.Cases[i].Fallthrough {
@@ -609,10 +727,18 @@ func (e *Env) Exec(stmts []TStmt) bool {
 			saved, savedG := e.Vars, e.Group
 			frame := map[string]TVal{}
 			for i, p := range sub.Params {
-				frame[p.Name] = e.assign(TVal{T: p.T}, "=", e.Eval(t.Args[i]))
+				av := e.Eval(t.Args[i])
+				if av.T == TS && av.NotSet {
+					// whether a STRING parameter given a not-set argument is not set or empty is not documented: not generated
+					e.oor("not-set STRING argument")
+				}
+				frame[p.Name] = e.assign(TVal{T: p.T}, "=", av)
 			}
 			for _, l := range sub.Locals {
 				frame[l.Name] = zero(l.T)
+				if l.T == TS {
+					frame[l.Name] = TVal{T: TS, S: ""} // the emitted helper initialises its STRING local to ""
+				}
 			}
 			e.Vars, e.Group = frame, map[int]TVal{}
 			e.depth++
@@ -645,6 +771,8 @@ type TG struct {
 	hdrs   []string
 	marker int
 	inSub  bool
+	// strictBool: only BOOL-typed leaves (no STRING truthiness)
+	strictBool bool
 }
 
 var tIntLits = []int64{0, 1, 2, 3, 5, 7, 8, 10, 16, 63, 64, 100, 255, 1000, 4096, 65535, 1000000, -1, -2, -7, -100, -65536}
@@ -753,14 +881,19 @@ func (g *TG) boolExpr(depth int) TExpr {
 		case 2:
 			return TCmp{Op: []string{"==", "!="}[r.Intn(2)], L: g.strLeft(), R: g.strAtom()}
 		case 3, 4:
-			return TRegex{L: g.strLeft(), Pat: tPatterns[r.Intn(len(tPatterns))], Neg: r.Intn(3) == 0}
+			pat := tPatterns[r.Intn(len(tPatterns))]
+			if pat == "^$" && r.Intn(4) != 0 {
+				pat = "^a" // zero-length matches hit a known defect of the regex library: keep them rare
+			}
+			return TRegex{L: g.strLeft(), Pat: pat, Neg: r.Intn(3) == 0}
 		case 5:
-			if len(g.hdrs) > 0 {
+			// bare STRING truthiness is a condition-only form: not in the value of a BOOL assignment
+			if len(g.hdrs) > 0 && !g.strictBool {
 				return THdr{Name: g.hdrs[r.Intn(len(g.hdrs))]}
 			}
 			return g.lit(TB)
 		default:
-			if v, ok := g.varOf(TS); ok {
+			if v, ok := g.varOf(TS); ok && !g.strictBool {
 				return v
 			}
 			return g.lit(TB)
@@ -770,7 +903,14 @@ func (g *TG) boolExpr(depth int) TExpr {
 	case 0:
 		return TNot{X: g.boolAtomForNot(depth - 1)}
 	case 1, 2:
-		return TLogic{Op: "&&", L: g.boolExpr(depth - 1), R: g.boolExpr(depth - 1)}
+		// `&&` binds tighter than `||`: an `||` operand needs parentheses to mean what the IR says
+		par := func(x TExpr) TExpr {
+			if l, ok := x.(TLogic); ok && l.Op == "||" {
+				return TGroup{X: x}
+			}
+			return x
+		}
+		return TLogic{Op: "&&", L: par(g.boolExpr(depth - 1)), R: par(g.boolExpr(depth - 1))}
 	case 3:
 		return TLogic{Op: "||", L: g.boolExpr(depth - 1), R: g.boolExpr(depth - 1)}
 	case 4:
@@ -788,7 +928,7 @@ func (g *TG) boolAtomForNot(depth int) TExpr {
 			return v
 		}
 	case 1:
-		if len(g.hdrs) > 0 {
+		if len(g.hdrs) > 0 && !g.strictBool {
 			return THdr{Name: g.hdrs[g.R.Intn(len(g.hdrs))]}
 		}
 	}
@@ -837,7 +977,14 @@ func (g *TG) setStmt() TStmt {
 	case TS:
 		val = g.strExpr()
 	case TB:
+		// the value of a BOOL assignment: BOOL-typed leaves only, operators only inside parentheses
+		g.strictBool = true
 		val = g.boolExpr(1)
+		g.strictBool = false
+		switch val.(type) {
+		case TCmp, TRegex, TLogic, TNot:
+			val = TGroup{X: val}
+		}
 	case TI:
 		val = g.operand(TI)
 		switch op {
@@ -954,6 +1101,9 @@ func (g *TG) switchStmtT(depth int) TStmt {
 			c.Default = true
 		} else if g.R.Intn(3) == 0 {
 			c.Regex, c.Val = true, tPatterns[g.R.Intn(len(tPatterns))]
+			if c.Val == "^$" && g.R.Intn(4) != 0 {
+				c.Val = "^a"
+			}
 		} else {
 			c.Val = tStrLits[g.R.Intn(len(tStrLits))]
 		}
@@ -1084,6 +1234,25 @@ func (p *TProgram) Reference() *Env {
 	return e
 }
 
+// ReferencePre runs the reference evaluator recording the state before every executed statement.
+func (p *TProgram) ReferencePre() *Env {
+	e := NewEnv()
+	for _, s := range p.Subs {
+		e.Subs[s.Name] = s
+	}
+	for _, l := range p.Locals {
+		e.Vars[l.Name] = zero(l.T)
+	}
+	e.TracePre = true
+	all := append(append([]TStmt{}, p.Init...), p.Body...)
+	e.ExecAt(all, 0)
+	if n := len(p.Body); (n == 0 || !isReturn(p.Body[n-1])) && !e.Returned && !e.OutOfRange {
+		e.pre(Count(all), TLog{Marker: "__end"})
+		e.Logs = append(e.Logs, "__end")
+	}
+	return e
+}
+
 // ---- token emission --------------------------------------------------------------------------
 
 func (p *TProgram) emit(g *G) {
@@ -1135,6 +1304,7 @@ func (p *TProgram) emit(g *G) {
 	for _, l := range p.Locals {
 		emitDeclare(g, l)
 	}
+	g.pre = nil
 	emitStmts(g, p.Init)
 	emitStmts(g, p.Body)
 	if n := len(p.Body); n == 0 || !isReturn(p.Body[n-1]) {
@@ -1142,7 +1312,7 @@ func (p *TProgram) emit(g *G) {
 	}
 	g.t("}", "SubroutineDeclaration#end", true)
 	g.eol()
-	p.SubToks, p.Stmts = g.toks, g.ranges
+	p.SubToks, p.Stmts, p.PreTok = g.toks, g.ranges, g.pre
 }
 
 func isReturn(s TStmt) bool { _, ok := s.(TReturn); return ok }
@@ -1164,6 +1334,7 @@ func emitStmts(g *G, ss []TStmt) {
 
 func emitStmt(g *G, s TStmt) {
 	from := len(g.toks)
+	g.pre = append(g.pre, from)
 	kind := ""
 	switch t := s.(type) {
 	case TReturn:
